@@ -248,4 +248,60 @@ example :
   refine ⟨_, rfl, ?_⟩
   decide +kernel
 
+/-! ## Dictionary `e_ops`: merging by position is merging by key exactly when the keys are listed alike -/
+section dictops
+variable {R : Type} [Add R] [Mul R]
+
+theorem merge_by_position_aux (w1 w2 : R) : ∀ (a b : KeyedSums R), a.map (·.1) = b.map (·.1) →
+    (a.map (·.1)).Nodup → ∀ x ∈ mergeByPosition w1 w2 a b, mergeForKey w1 w2 a b x.1 = some x.2 := by
+  intro a
+  induction a with
+  | nil => intro b _ _ x hx; simp [mergeByPosition] at hx
+  | cons p a ih =>
+    intro b hkeys hn x hx
+    cases b with
+    | nil => simp at hkeys
+    | cons q b =>
+      simp only [List.map_cons, List.cons.injEq] at hkeys
+      obtain ⟨hpq, hrest⟩ := hkeys
+      simp only [List.map_cons, List.nodup_cons] at hn
+      simp only [mergeByPosition, List.zipWith_cons_cons, List.mem_cons] at hx
+      rcases hx with hx | hx
+      · subst hx
+        simp [mergeForKey, ← hpq]
+      · have hx' : x ∈ mergeByPosition w1 w2 a b := hx
+        have hmem : x.1 ∈ a.map (·.1) := by
+          unfold mergeByPosition at hx'
+          obtain ⟨i, hi, rfl⟩ := List.mem_iff_getElem.mp hx'
+          simp only [List.length_zipWith] at hi
+          simp only [List.getElem_zipWith]
+          exact List.mem_map.mpr ⟨a[i], List.getElem_mem _, rfl⟩
+        have hne : p.1 ≠ x.1 := fun he => hn.1 (he ▸ hmem)
+        have hneq : q.1 ≠ x.1 := by rw [← hpq]; exact hne
+        have := ih b hrest hn.2 x hx'
+        simp only [mergeForKey, List.find?_cons] at this ⊢
+        simp only [beq_eq_false_iff_ne.mpr hne, beq_eq_false_iff_ne.mpr hneq]
+        exact this
+
+/-- when the operands list the same keys in the same order (and no key twice), the position-wise merge
+holds, under every key, the mixture of the operands' sums for that key -/
+theorem merge_by_position_is_by_key (w1 w2 : R) (a b : KeyedSums R) (h : mergeable a b = true)
+    (hn : (a.map (·.1)).Nodup) (x : String × R) (hx : x ∈ mergeByPosition w1 w2 a b) :
+    mergeForKey w1 w2 a b x.1 = some x.2 := by
+  unfold mergeable at h
+  exact merge_by_position_aux w1 w2 a b (by simpa using h) hn x hx
+
+/-- the test before the repair lets through operands that list their keys in another order, for which the
+position-wise merge mixes one key's sums with another's: keys a, b against b, a with values 1, 10 / 100,
+1000 and equal weights — the merged entry labelled `a` holds 1 + 100 (the sums of `a` and of `b`) where
+the mixture for `a` is 1 + 1000 -/
+example :
+    let a : KeyedSums Int := [("a", 1), ("b", 10)]
+    let b : KeyedSums Int := [("b", 100), ("a", 1000)]
+    mergeableOld a b = true ∧ mergeable a b = false ∧
+      mergeByPosition 1 1 a b = [("a", 101), ("b", 1010)] ∧ mergeForKey 1 1 a b "a" = some 1001 := by
+  decide
+
+end dictops
+
 end Qv.C15
